@@ -6,11 +6,6 @@ Require Import V.Model.WireBytes V.Model.WireCodes V.Model.WireEvents V.Proofs.W
 From Coq Require Import ZifyBool.
 Open Scope Z_scope.
 
-Lemma field_fits fs k f : nth_error fs k = Some f -> foff fs k + fsize f <= fsizes fs.
-Proof. unfold fsizes. revert k. induction fs; intros [|k] H; cbn [nth_error] in H; try discriminate.
-  - inversion H; subst. cbn [foff length]. pose proof (foff_nonneg fs (length fs)). lia.
-  - cbn [foff length]. specialize (IHfs k H). lia. Qed.
-
 Lemma get_string_field fs k s :
   nth_error fs k = Some (FStr s) -> fsizes fs <= SCRATCH_CAPACITY ->
   get_string (fencs fs) (foff fs k) = Ok s.
